@@ -59,6 +59,9 @@ type Flat struct {
 	// Outer is the graph of the enclosing function when this graph is the body of a function literal
 	// (CanonPath looks for the definitions of captured variables there)
 	Outer *Flat
+	// Facts (set by SplitBools): per node, the constants known for the tracked boolean / error locals on entry
+	// (1 = true / certainly not nil, 2 = false / nil)
+	Facts map[int]map[types.Object]int8
 }
 
 func (p *Prog) mayReturn(pkg *packages.Package) func(*ast.CallExpr) bool {
